@@ -23,7 +23,7 @@ one canonical form of constructs that maintainers routinely rewrite into each ot
   S7  T i = a; while (c(i)) { body; ++i; } (no continue, i dead afterwards) -> for (T i = a; c(i); ++i) body
   S4  a void function body / a loop body that ends with `if (a && b) { X }` -> `if (!a) return / continue; if (!b) ...; X` (guard-clause form)
   S8  if (a > b) a = b; -> a = min(a, b); if (a < b) a = b; -> a = max(a, b)   (integers)
-  E11 x * 2^K -> x << K, unsigned x / 2^K -> x >> K ;  E12 2 * i -> i * 2 ;  E13 X.empty() -> X.size() == 0 (std containers) ;  S16 T x; x = e; -> T x = e ;  S15 pointer cursor over [B, B+N) -> index loop over B ;  S10 if (c) x = a; else x = b; -> x = c ? a : b ;  S13 if (c) b = true; -> b |= c ; if (c) b = false; -> b &= !c  (bool b)
+  E11 x * 2^K -> x << K, unsigned x / 2^K -> x >> K ;  E12 2 * i -> i * 2 ;  E14 !(a && b) -> !a || !b ;  E13 X.empty() -> X.size() == 0 (std containers) ;  S13b if (c) f |= v; -> f |= c ? v : 0 ;  S16 T x; x = e; -> T x = e ;  S15 pointer cursor over [B, B+N) -> index loop over B ;  S10 if (c) x = a; else x = b; -> x = c ? a : b ;  S13 if (c) b = true; -> b |= c ; if (c) b = false; -> b &= !c  (bool b)
   S14 `T x = a; if (c) x = b;` -> `T x = c ? b : a;`   (a a plain read)
   S12 `if (ok) return; throw X;` at the end of a void function -> `if (!ok) throw X;`
   S5  `while (c) body` and `for (; c; ) body` are both exported as For nodes with empty init / increment
@@ -186,6 +186,14 @@ def norm_expr(e):
         inner = _strip(e.get("e"))
         if isinstance(inner, dict) and inner.get("k") == "Un" and inner.get("op") == "!":
             return inner["e"]
+        if isinstance(inner, dict) and inner.get("k") == "Bin" and inner.get("op") in ("&&", "||"):
+            # E14 (negation normal form): !(a && b) -> !a || !b ; !(a || b) -> !a && !b
+            def neg1(x):
+                return norm_expr({"k": "Un", "op": "!", "e": x, "loc": (x or {}).get("loc") if isinstance(x, dict) else None, "t": "bool", "sz": 1, "post": False})
+            n = dict(inner)
+            n["op"] = "||" if inner["op"] == "&&" else "&&"
+            n["l"], n["r"] = neg1(inner["l"]), neg1(inner["r"])
+            return n
         if isinstance(inner, dict) and inner.get("k") == "Bin" and inner.get("op") in NEG_EQ and not _is_float(_strip(inner["l"])) and not _is_float(_strip(inner["r"])):
             n = dict(inner)
             n["op"] = NEG_EQ[inner["op"]]
@@ -414,6 +422,22 @@ def _inline_end_locals(stmts):
             ini = _strip(s["vars"][0].get("init"))
             while isinstance(ini, dict) and ini.get("k") == "Construct" and len(ini.get("args", [])) == 1:
                 ini = _strip(ini["args"][0])
+            if isinstance(ini, dict) and ini.get("k") == "Call" and ini.get("cname") == "size" and not ini.get("args") and ini.get("obj") is not None and _pure_container(ini["obj"]) \
+                    and not any(_writes(x, s["vars"][0]["d"]) for x in out[i + 1:]):
+                # `const size_t n = X.size();` bounding a following loop that does not change the size of X: the condition reads
+                # X.size() itself (the declaration stays for its other readers)
+                d = s["vars"][0]["d"]
+                xt = _txt(ini["obj"])
+                for j in range(i + 1, len(out)):
+                    L = out[j]
+                    if isinstance(L, dict) and L.get("k") in ("For", "While") and L.get("c") is not None and _refs_to(L["c"], d):
+                        resized = []
+                        _walk(L.get("b"), lambda x: resized.append(x) if x.get("k") == "Call" and x.get("cname") in ("push_back", "emplace_back", "resize", "erase", "clear", "insert", "pop_back", "assign", "swap") and x.get("obj") is not None and _txt(x["obj"]) == xt else None)
+                        _walk(L.get("b"), lambda x: resized.append(x) if x.get("k") in ("Assign", "OpCall") and x.get("op") == "=" and _txt(x.get("l") or (x.get("args") or [None])[0]) == xt else None)
+                        if not resized:
+                            L2 = dict(L)
+                            L2["c"] = _subst_ref(L["c"], d, s["vars"][0]["init"])
+                            out[j] = L2
             if isinstance(ini, dict) and ini.get("k") == "Call" and ini.get("cname") in ("end", "cend") and not ini.get("args") and ini.get("obj") is not None and _pure_container(ini["obj"]):
                 d = s["vars"][0]["d"]
                 users = [j for j in range(i + 1, len(out)) if _refs_to(out[j], d)]
@@ -916,6 +940,18 @@ def norm_stmt(s):
                         na["op"] = "|=" if rv.get("b") else "&="
                         na["r"] = cexp
                         return [{"k": "Expr", "e": na, "loc": s.get("loc"), "synth": True}]
+        # S13b: if (c) f |= v;  ->  f |= c ? v : 0     (integer f; building a flags byte bit by bit)
+        if s.get("e") is None:
+            tb = _stmts(s.get("t"))
+            if len(tb) == 1 and isinstance(tb[0], dict) and tb[0].get("k") == "Expr":
+                a1 = _strip(tb[0].get("e"))
+                if isinstance(a1, dict) and a1.get("k") == "Assign" and a1.get("op") == "|=" and _pure_container(a1.get("l")) and not _is_float(a1) \
+                        and (a1["l"].get("t") or "").replace("const ", "") != "bool" and _txt(a1["l"]) not in _txt(s["c"]):
+                    zero = {"k": "Int", "v": 0, "lit": "0", "t": a1.get("t"), "sz": a1.get("sz"), "loc": s.get("loc")}
+                    cond = {"k": "Cond", "c": s["c"], "a": a1["r"], "e": zero, "loc": s.get("loc"), "t": a1.get("t"), "sz": a1.get("sz"), "synth": True}
+                    na = dict(a1)
+                    na["r"] = norm_expr(cond)
+                    return [{"k": "Expr", "e": na, "loc": s.get("loc"), "synth": True}]
         # S8: if (a > b) a = b;  ->  a = min(a, b);   if (a < b) a = b;  ->  a = max(a, b)      (integers)
         if s.get("e") is None:
             body = _stmts(s.get("t"))
